@@ -9,9 +9,9 @@
  middleware change what "matches" means for the REST of the chain, never the position.
 
  One deliberate, documented deviation is modelled instead of idealised away: two
- registrations with the same path and kind that are adjacent in a method's stack
- are ONE route with a longer handler list (that is what app.Get(p, h1, h2) means),
- and Next() inside a route goes to its next handler without re-matching.
+ registrations with the same path and kind made one right after the other are ONE
+ route with a longer handler list (that is what app.Get(p, h1, h2) means), and
+ Next() inside a route goes to its next handler without re-matching.
  ***************************************************************************)
 EXTENDS Naturals, Sequences, FiniteSets, TLC, Json
 
@@ -28,7 +28,7 @@ VARIABLES table,      \* sequence of registrations [kind, pat, beh]
           req,        \* <<method, path>> as sent
           phase,      \* "build" | "run" | "done"
           curM, curP, \* method / path as the chain currently sees them
-          gpos,       \* registration index of the first member of the route being executed (0: none yet)
+          gpos,       \* registration index of the handler that ran last (0: none yet)
           rest,       \* registration indexes of the remaining handlers of the current (merged) route
           matchedEP, ran, status, allow
 vars == <<table, req, phase, curM, curP, gpos, rest, matchedEP, ran, status, allow>>
@@ -41,11 +41,10 @@ K(r) == IF r.kind = "use" THEN "use" ELSE "ep"
 InStack(r, m) == r.kind = "use" \/ r.kind = m
 Matches(r, p) == <<r.pat, K(r), p>> \in MatchSet
 
-\* --- the per-method stack with duplicate merging
-\* predecessor of registration i in method m's stack (0 if none)
-Prev(i, m) == LET S == {j \in 1..(i - 1) : InStack(table[j], m)} IN
-              IF S = {} THEN 0 ELSE CHOOSE j \in S : \A q \in S : q <= j
-\* i is merged into its predecessor in m's stack
+\* --- duplicate merging: a registration made right after one with the same path and kind (no other registration call in
+\* between) extends that route's handler list instead of adding a route; Next() inside a route runs its next handler
+\* without re-matching.  Because only consecutive registrations merge, every method stack groups them the same way.
+Prev(i, m) == IF i > 1 /\ InStack(table[i - 1], m) THEN i - 1 ELSE 0
 Merged(i, m) == LET j == Prev(i, m) IN
                 j # 0 /\ table[j].pat = table[i].pat /\ (table[j].kind = "use") = (table[i].kind = "use")
 \* group heads of m's stack and the members of a head's group
@@ -58,7 +57,12 @@ SetToSeq(S) == LET RECURSIVE f(_) f(T) == IF T = {} THEN <<>> ELSE
                    LET x == CHOOSE x \in T : \A y \in T : x <= y IN <<x>> \o f(T \ {x})
                IN f(S)
 
-Cand == {h \in Heads(curM) : h > gpos /\ Matches(table[h], curP)}
+\* the rest of the chain: registrations later than the handler that ran last, in the stack of the CURRENT method, matching the
+\* CURRENT path.  (Within one method this is the next group head; after a method override it may be a member of a group whose
+\* head was registered earlier -- it is later-registered than the running handler, so it belongs to the rest of the chain.)
+Cand == {h \in 1..Len(table) : InStack(table[h], curM) /\ h > gpos /\ Matches(table[h], curP)}
+\* the handlers that run with registration h without re-matching: h and the members merged behind it in curM's stack
+Following(h, m) == {i \in Members(HeadOf(h, m), m) : i >= h}
 AllowSet == {m \in RouteMethods \ {curM} :
                \E h \in Heads(m) : table[h].kind # "use" /\ Matches(table[h], curP)}
 
@@ -85,13 +89,13 @@ RunHandler(i) ==
 
 \* Next() inside a merged route: its next handler, no re-matching
 Inner == /\ phase = "run" /\ rest # <<>>
-         /\ RunHandler(Head(rest)) /\ rest' = Tail(rest)
-         /\ UNCHANGED <<table, req, gpos, matchedEP, allow>>
+         /\ RunHandler(Head(rest)) /\ rest' = Tail(rest) /\ gpos' = Head(rest)
+         /\ UNCHANGED <<table, req, matchedEP, allow>>
 
 \* Next() at the end of a route (or the start of the request): first later route that matches NOW
 Dispatch == /\ phase = "run" /\ rest = <<>> /\ Cand # {}
             /\ LET h == CHOOSE x \in Cand : \A y \in Cand : x <= y
-                   ms == SetToSeq(Members(h, curM))
+                   ms == SetToSeq(Following(h, curM))
                IN /\ gpos' = h
                   /\ matchedEP' = (matchedEP \/ table[h].kind # "use")
                   /\ RunHandler(Head(ms)) /\ rest' = Tail(ms)
